@@ -165,6 +165,53 @@ mut("encode-read-drops-anchor-early", "hcobs/src/lib.rs",
     "        let anchored_slice = self.read_n(reader, count, attempts)?;\n        let ret = anchored_slice.slice().len();\n        if ret == 1 && count > 2 { return Ok(ret); }\n\n        self.encode_anchored(anchored_slice);\n        Ok(ret)",
     ["C17", "C01"])
 
+# ---- rough_tlv ------------------------------------------------------------
+mut("tlv-unstable-sort", "rough_tlv/src/encoder.rs",
+    "    pub fn new(mut elements: Vec<(Tag, Value)>) -> Result<Self, EncodingError> {\n        elements.sort_by_key(|x| x.0);",
+    "    pub fn new(mut elements: Vec<(Tag, Value)>) -> Result<Self, EncodingError> {\n        elements.reverse();\n        elements.sort_by_key(|x| x.0);",
+    ["C11"])
+mut("tlv-offsets-after-add", "rough_tlv/src/encoder.rs",
+    "                    Some(sum) => {\n                        sink.append_copy(&sum.to_le_bytes());\n                        let sum = sum.saturating_add(encoded_len as u32);",
+    "                    Some(sum) => {\n                        let sum = sum.saturating_add(encoded_len as u32);\n                        sink.append_copy(&sum.to_le_bytes());",
+    ["C11"])
+mut("tlv-compute-len-forgets-offsets", "rough_tlv/src/encoder.rs",
+    "        ret = ret.saturating_add(elements.len().saturating_sub(1).saturating_mul(4));",
+    "        ret = ret.saturating_add(elements.len().saturating_sub(2).saturating_mul(4));",
+    ["C11"])
+# (a mutation of the per-value limit is equivalent: any value that long also exceeds the total limit)
+mut("tlv-total-limit-off-by-one", "rough_tlv/src/encoder.rs",
+    "        if ret > i32::MAX as usize {\n            // This also handles saturation.",
+    "        if ret > i32::MAX as usize + 1 {\n            // This also handles saturation.",
+    ["C11"])
+mut("tlv-sorted-check-strict", "rough_tlv/src/encoder.rs",
+    "            if cur.0 > next.0 {\n                return Err(EncodingError::NonMonotonicTags((",
+    "            if cur.0 >= next.0 {\n                return Err(EncodingError::NonMonotonicTags((",
+    ["C11"])
+mut("tlv-cow-str-owned-borrow", "rough_tlv/src/encoder.rs",
+    "            Cow::Owned(value) => sink.append_copy(value.as_bytes()),\n        };\n    }\n\n    fn rough_tlv_len(&self) -> usize {\n        self.as_bytes().len()",
+    "            Cow::Owned(value) => sink.append_copy(&value.as_bytes()[..value.len().min(9)]),\n        };\n    }\n\n    fn rough_tlv_len(&self) -> usize {\n        self.as_bytes().len()",
+    ["C11"])
+mut("view-offsets-strict", "rough_tlv/src/decoder.rs",
+    "                if left > right {\n                    return Some((idx, left.value(), right.value()));",
+    "                if left >= right {\n                    return Some((idx, left.value(), right.value()));",
+    ["C12", "C11"])
+mut("view-header-8n-4", "rough_tlv/src/decoder.rs",
+    "        if 8 * num_values > data.len() as u64 {",
+    "        if 8 * num_values > data.len() as u64 + 4 {",
+    ["C12"])
+mut("view-last-offset-ge", "rough_tlv/src/decoder.rs",
+    "            if total > ret.storage.len() as u64 {",
+    "            if total > ret.storage.len() as u64 + 1 {",
+    ["C12"])
+mut("view-get-value-no-bound", "rough_tlv/src/decoder.rs",
+    "        if index >= self.len() {\n            return None;\n        }\n",
+    "",
+    ["C12"])
+mut("view-find-first-only", "rough_tlv/src/decoder.rs",
+    "            this.tags().binary_search(&wanted).ok()",
+    "            this.tags().binary_search(&wanted).ok().map(|i| i.saturating_sub((i > 2) as usize))",
+    ["C12", "C11"])
+
 # ---- streaming / iovec behaviour seen through the codecs -------------------
 mut("iovec-stable-prefix-last-backref", "owning_iovec/src/implementation.rs",
     "            .backrefs\n            .first()\n            .map(|backref| backref.1.unwrap().slice_index);",
